@@ -17,9 +17,9 @@ import (
 	badger "github.com/dgraph-io/badger/v2"
 )
 
-func attDomain() []byte { d := make([]byte, 32); d[0] = 1; return d }
+func attDomain() []byte  { d := make([]byte, 32); d[0] = 1; return d }
 func propDomain() []byte { return make([]byte, 32) }
-func genDomain() []byte { d := make([]byte, 32); d[0] = 7; return d }
+func genDomain() []byte  { d := make([]byte, 32); d[0] = 7; return d }
 
 func att(s, t uint64) *rules.SignBeaconAttestationData { return attD(s, t, attDomain()) }
 
@@ -154,12 +154,12 @@ func single(faults int, endpoint int) {
 	vsym.Assert("F6-result-definite", res == core.ResultSucceeded || res == core.ResultDenied || res == core.ResultFailed)
 }
 
-func SingleAttest1()   { single(1, 0) }
-func SinglePropose1()  { single(1, 1) }
-func SingleGeneric1()  { single(1, 2) }
-func SingleAttest2()   { single(2, 0) }
-func SinglePropose2()  { single(2, 1) }
-func SingleGeneric2()  { single(2, 2) }
+func SingleAttest1()  { single(1, 0) }
+func SinglePropose1() { single(1, 1) }
+func SingleGeneric1() { single(1, 2) }
+func SingleAttest2()  { single(2, 0) }
+func SinglePropose2() { single(2, 1) }
+func SingleGeneric2() { single(2, 2) }
 
 // batch: per-position fail-closed for the two batch endpoints (n entries, entry 0 in the adverse environment).
 func batch(faults int, n int, generic bool) {
